@@ -107,7 +107,7 @@ def report(rep, pid, res, sigs, what):
                       f"({ev['ev']} {ev.get('kind','')}): {(mm[0] if mm else 'trace rejected')[:260]}")
 
 
-def run(pid, vh_args, what, rule, assumptions, mc=(), extra_cov=None, vh_cmd="mac"):
+def run(pid, vh_args, what, rule, assumptions, mc=(), extra_cov=None, vh_cmd="mac", extra=()):
     rep = core.Report(pid)
     wd = core.workdir(pid)
     core.run_vh(vh_cmd, wd, shards=core.NCPU, extra=list(vh_args))
@@ -129,6 +129,14 @@ def run(pid, vh_args, what, rule, assumptions, mc=(), extra_cov=None, vh_cmd="ma
         zero = [a for a, c in r["coverage"].items() if c == 0]
         if zero:
             raise core.ToolError(f"model check {cfg}: actions never taken (vacuous): {zero}")
+    extras = {}
+    for fn in extra:
+        d = fn(rep, wd)
+        states += d.pop("_states", 0)
+        gen += d.pop("_transitions", 0)
+        n += d.pop("_evaluations", 0)
+        distinct += d.pop("_distinct", 0)
+        extras.update(d)
     rejected = sum(1 for r in res if not r["accepted"])
     cov = {
         "states": states, "transitions": gen,
@@ -138,6 +146,7 @@ def run(pid, vh_args, what, rule, assumptions, mc=(), extra_cov=None, vh_cmd="ma
         "model_checking": mcinfo,
         "samples": [sample_history(traces[0])],
     }
+    cov.update(extras)
     if extra_cov:
         cov.update(extra_cov)
     return rep.finish("model_checking", cov, assumptions)
